@@ -483,11 +483,12 @@ impl<G: GraphLike> Obs<'_, G> {
                     cached += 1;
                     match brute.get(&(i, j)) {
                         None => {
-                            self.viol(
-                                &format!("{kind}|stale-cache-entry|key-is-not-a-tree-edge"),
-                                "the rank cache holds an entry for a pair of nodes that is not an edge of the current tree",
-                                history, before, t, json!({"pair": [i, j], "cached_rank": rk}),
-                            );
+                            // an entry for a pair that is not an edge of the current tree is
+                            // only a latent problem: the property is about the REPORTED width
+                            // and score (judged below), and an implementation that validates
+                            // or recomputes entries on read would be blamed here. Observed.
+                            let _ = rk;
+                            st.add("observation:cache-entry-for-a-non-edge", 1);
                             stale = true;
                         }
                         Some(&b) if b != rk => {
